@@ -190,7 +190,10 @@ def encode(sk, *xs, _mode="decode"):
 def clist(sk, qy, *xs):
     """all-C encoding with symbolic coordinates; coordToHandle(query) = handle of the first stored coordinate >= query"""
     n = sk["n"]
-    cs, vs = list(xs[:n]), list(xs[n:2 * n])
+    if sk.get("present"):
+        cs, vs = list(xs[:n]), [3 + i for i in range(n)]        # longer lists: all elements present, coordinates and query symbolic
+    else:
+        cs, vs = list(xs[:n]), list(xs[n:2 * n])
     t = Tensor.fromFiber(["K"], Fiber(cs, vs), shape=[sk["S"]])
     with patched(MODS, print=_noprint):
         out, ot = enc(t, ["C"])
@@ -245,6 +248,9 @@ def obligations(tier):
     for n in range(4):
         cn = names("c", n)
         obs.append(Ob("clist/%d" % n, "clist", dict(n=n, S=1 << 40), ["qy"] + cn + names("v", n), chain_pre(cn) + bound_pre(cn, 0, 1 << 40)))
+    for n in ((4, 5, 6) if q else (4, 5, 6, 7, 8)):
+        cn = names("c", n)
+        obs.append(Ob("clist/%d/present" % n, "clist", dict(n=n, S=1 << 40, present=True), ["qy"] + cn, chain_pre(cn) + bound_pre(cn, 0, 1 << 40)))
     for tree in ([[1, 1], [2, 1], [1, 0]] if q else [[1, 1], [2, 1], [1, 0], [2, 2]]):
         ps = names("x", tree_params(tree))
         pre, _, cn = tree_pre(tree, ps)
